@@ -22,7 +22,9 @@
        either equal up to dirty flags alone (`seq`), or so after re-stamping one catalog cell with
        the bytes it already holds.
    Hypotheses as in C02 (`hist_ok`: failing statements change no page - excludes F11a-c; root
-   moves rewrite the catalog row redo would find). *)
+   moves rewrite the catalog row redo would find). Section (3) at the end of the file restates
+   C03_prefix_state / C03_all_records / C03_continues WITHOUT these two hypotheses, under the
+   boolean `hist_ok2` (the `_noH1H2` theorems). *)
 From Coq Require Import List NArith ZArith String Arith.
 From Mkdb Require Import Model.Engine Model.WalCodec Proofs.WalCodecProofs Proofs.TreeProofs Proofs.StoreInv
   Proofs.CrashBase Proofs.CrashPages Proofs.CrashRedo Proofs.CrashLog Proofs.CrashMain Proofs.CrashPrefix
@@ -353,4 +355,93 @@ Example C03_oracle_rejects :
   spec_accepts_strict (hx_short, hx_obs (hx_base ++ [(18%N, [VInt 100])])) = false /\
   spec_accepts_strict (hx_short, hx_obs hx_base) = true /\
   spec_accepts_strict (hx_short, hx_obs (hx_base ++ [(19%N, [VInt 100]); (20%N, [VInt 101]); (21%N, [VInt 102])])) = true.
+Proof. vm_compute. repeat split; reflexivity. Qed.
+
+(* ---- (3) the state theorems WITHOUT (H1) and WITHOUT (H2) ----
+   C03_prefix_state / C03_all_records / C03_continues assume C02's `hist_ok` of the history - (H1)
+   `stmt_atomic` and (H2) `stmt_moves_ok` for every statement - and (H2) of the statement being
+   logged. Both are derived here, as in C02's sections E / F, from the refinement invariant
+   `SelfOk (mem y) /\ exists d, Rep (mem y) d`: Proofs/MovesFromRep.v RInv_step shows that it holds
+   again after the recovery that `EvCrashInLog st j` performs (the recovered cache is, up to dirty
+   flags and page LSNs, the store after the first i row operations of st, which represents the
+   database after INSERT of the first i rows / UPDATE or DELETE of the first i matching ids:
+   MovesFromRep.prefix_rep, Rep_upto, SelfOk_upto) and after the one of `EvTornFlush W`. So these
+   two events are events of the boolean, H-free histories `hist_ok2` (Proofs/HistNoH1.v):
+     ev_ok2 y (EvCrashInLog st j) = RefineMain.stmt_ok st && (nextFree (e_store (run_stmt (mem y) st)) <=? OFFMAX)
+   (literals are Go values; allocation frontier <= 2^63 - what `EvStmt st` asks), and
+     ev_ok2 y (EvTornFlush W) = true.
+   No further side condition is needed. The `_continues` version returns `hist_ok2` of the extended
+   history, so the theorems chain (any number of such crashes, mixed with statements, flushes,
+   crash-restarts and torn flushes). *)
+From Mkdb Require Import Proofs.HistNoH1 Proofs.CrashNoH.
+
+Theorem C03_prefix_state_noH1H2 : forall evs y os st m j,
+  hist_ok2 init_sys evs = true -> run_events init_sys evs = (SOk y, os) ->
+  ev_ok2 y (EvCrashInLog st j) = true ->
+  is_dml st = true -> e_out (run_stmt (mem y) st) = OOk m ->
+  let i := started (op_sizes (mem y) st) j in
+  exists y',
+    step y (EvCrashInLog st j) = (SOk y', None) /\
+    wal y' = wal y ++ firstn j (e_batch (run_stmt (mem y) st)) /\ disk y' = mem y' /\
+    prefix_state (mem y') (run_rows (mem y) st i) /\
+    abs (mem y') = abs (run_rows (mem y) st i).
+Proof. exact crash_in_log_noH. Qed.
+Print Assumptions C03_prefix_state_noH1H2.
+
+Theorem C03_all_records_noH1H2 : forall evs y os st m j,
+  hist_ok2 init_sys evs = true -> run_events init_sys evs = (SOk y, os) ->
+  ev_ok2 y (EvCrashInLog st j) = true ->
+  is_dml st = true -> e_out (run_stmt (mem y) st) = OOk m ->
+  (List.length (e_batch (run_stmt (mem y) st)) <= j)%nat ->
+  exists y', step y (EvCrashInLog st j) = (SOk y', None) /\ CrashBase.seq (mem y') (e_store (run_stmt (mem y) st)).
+Proof.
+  intros evs y os st m j H R Hev Hd Ho Hj.
+  destruct (ev_ok2_cil_stmt_ok evs y os st j H R Hev) as [_ Hm].
+  exact (C03_all_records evs y os st m j (hist_ok2_hist_ok evs H) R Hd Hm Ho Hj).
+Qed.
+Print Assumptions C03_all_records_noH1H2.
+
+(* any statement (acknowledged or refused, DML or CREATE TABLE), any cut: the restart succeeds and
+   the extended history satisfies `hist_ok2` again *)
+Theorem C03_continues_noH1H2 : forall evs y os st j,
+  hist_ok2 init_sys evs = true -> run_events init_sys evs = (SOk y, os) ->
+  ev_ok2 y (EvCrashInLog st j) = true ->
+  exists y1 os1, run_events init_sys (evs ++ [EvCrashInLog st j]) = (SOk y1, os1) /\
+                 hist_ok2 init_sys (evs ++ [EvCrashInLog st j]) = true.
+Proof. exact crash_in_log_continues_noH. Qed.
+Print Assumptions C03_continues_noH1H2.
+
+(* ... and after it the cache represents a database of the specification again *)
+Theorem C03_rep_after_crash_in_log : forall evs y os,
+  hist_ok2 init_sys evs = true -> run_events init_sys evs = (SOk y, os) ->
+  SelfOk (mem y) /\ exists d, Rep (mem y) d.
+Proof. exact hist_ok2_rep_all. Qed.
+Print Assumptions C03_rep_after_crash_in_log.
+
+(* non-vacuity: ex_pre (CREATE TABLE, 8 rows), the 3-row INSERT ex_stmt cut after 1 record (inside
+   the [insert; catalog update] pair of its root-moving first row), a further INSERT, a 5-row
+   UPDATE cut after 2 records, a refused INSERT (INT range) "cut" at 0, a CREATE TABLE dying after
+   its flush, a crash-restart: the history satisfies the boolean hypothesis, and no step of it
+   fails (so the hypothesis was evaluated at every event) *)
+Definition ex_cil : list event :=
+  ex_pre ++
+  [EvCrashInLog ex_stmt 1;
+   ins1 "t" 200;
+   EvCrashInLog (SUpdate "t" [("a", XLit (VInt 50))] (Some (EPred (XCol (mkCol "" "a")) CLt (XLit (VInt 6))))) 2;
+   EvCrashInLog (SInsert "t" [] [[VInt 7]; [VInt 2147483648]]) 0;
+   EvCrashInLog (SCreateTable "u" [mkColDef "b" STNumeric]) 0;
+   ins1 "u" 1;
+   EvCrash].
+
+Example C03_noH1H2_nonvacuous :
+  hist_ok2 init_sys ex_cil = true /\
+  match run_events init_sys ex_cil with
+  | (SOk y, os) =>
+      skipn 9 os = [None; Some (OOk 1); None; None; None; Some (OOk 1); None] /\
+      (match st_fetch (mem y) "t" with Ok (rows, _) => map (fun r => (fst r, snd r)) rows | _ => [] end) =
+        [(11, [VInt 50]); (12, [VInt 50]); (13, [VInt 2]); (14, [VInt 3]); (15, [VInt 4]); (16, [VInt 5]);
+         (17, [VInt 6]); (18, [VInt 7]); (19, [VInt 100]); (20, [VInt 200])]%N /\
+      (match st_fetch (mem y) "u" with Ok (rows, _) => List.length rows | _ => O end) = 1%nat
+  | _ => False
+  end.
 Proof. vm_compute. repeat split; reflexivity. Qed.
